@@ -167,6 +167,42 @@ func genEdits(r *rng.R, ents []ent) []edit {
 	return eds
 }
 
+// blockEnts: a non-empty directory at an output path, so that writing the generated file fails
+// ("failed to write target file"); older than every template so that -lazy does not take it for up to date.
+func blockEnts(g string, base int64) []ent {
+	return []ent{{Path: g, Dir: true, Mtime: base - 5000e9}, {Path: g + "/keep.txt", Content: "not generated\n", Mtime: base - 4000e9}}
+}
+
+// blockedEarlyTree: dozens of templates, the output of the first one(s) in walk order blocked by a directory.
+func blockedEarlyTree(r *rng.R, base int64) []ent {
+	var ents []ent
+	n := 25 + r.Intn(35)
+	dirs := []string{"", "", "pkg", "ui"}
+	ents = append(ents, ent{Path: "pkg", Dir: true}, ent{Path: "ui", Dir: true})
+	used := map[string]bool{}
+	for i := 0; i < n; i++ {
+		d := rng.Pick(r, dirs)
+		p := join(d, fmt.Sprintf("t%02d.templ", r.Intn(90)+10))
+		if used[p] {
+			continue
+		}
+		used[p] = true
+		ents = append(ents, ent{Path: p, Content: fmt.Sprintf(rng.Pick(r, templOK), fmt.Sprint(i)), Mtime: base + int64(r.Intn(3000))*1e9})
+	}
+	first := "00first"
+	if r.Intn(3) == 0 {
+		first = "t05"
+	}
+	ents = append(ents, ent{Path: first + ".templ", Content: fmt.Sprintf(templOK[0], "first"), Mtime: base + 7e9})
+	ents = append(ents, blockEnts(first+"_templ.go", base)...)
+	if r.Bool() {
+		ents = append(ents, ent{Path: "pkg/00a.templ", Content: fmt.Sprintf(templOK[1], "x"), Mtime: base + 9e9})
+		ents = append(ents, blockEnts("pkg/00a_templ.go", base)...)
+	}
+	sort.Slice(ents, func(i, j int) bool { return ents[i].Path < ents[j].Path })
+	return ents
+}
+
 func genTree(r *rng.R, base int64) (root string, ents []ent) {
 	if r.Intn(100) < 7 {
 		root = rng.Pick(r, rootsSkipped)
@@ -214,6 +250,14 @@ func genTree(r *rng.R, base int64) (root string, ents []ent) {
 		ents = append(ents, ent{Path: p, Content: content, Mtime: m})
 		return true
 	}
+	addBlock := func(g string) {
+		if strings.HasPrefix(filepath.Base(g), "_") || strings.HasPrefix(filepath.Base(g), ".") || used[g] {
+			return // such a directory would itself be skipped by name; keep those out of this dimension
+		}
+		used[g] = true
+		used[g+"/keep.txt"] = true
+		ents = append(ents, blockEnts(g, base)...)
+	}
 	for i := 0; i < nf; i++ {
 		d := rng.Pick(r, dirs)
 		stem := rng.Pick(r, stems)
@@ -240,10 +284,18 @@ func genTree(r *rng.R, base int64) (root string, ents []ent) {
 			if r.Intn(100) < 45 { // an existing sibling: up to date or stale, older / same age / newer
 				g := join(d, stem+"_templ.go")
 				gm := m + int64(r.Intn(3)-1)*100e9
-				add(g, siblingContent(r.Intn(5), p, src, tag), gm)
+				if r.Intn(100) < 12 { // write failure: the output path is a non-empty directory
+					addBlock(g)
+				} else {
+					add(g, siblingContent(r.Intn(5), p, src, tag), gm)
+				}
 			}
 		case x < 70: // a _templ.go; an orphan unless the stem's template happens to exist
-			add(join(d, stem+"_templ.go"), "// generated once "+tag+"\npackage p\n", mt())
+			if r.Intn(100) < 6 {
+				addBlock(join(d, stem+"_templ.go"))
+			} else {
+				add(join(d, stem+"_templ.go"), "// generated once "+tag+"\npackage p\n", mt())
+			}
 		default:
 			add(join(d, rng.Pick(r, others)), "other "+tag+"\n", mt())
 		}
@@ -313,6 +365,16 @@ func build(scratch string, tc tcase) (string, error) {
 	if err := os.MkdirAll(root, 0o755); err != nil {
 		return "", err
 	}
+	// a directory that blocks an output path is given an old modification time once everything is in place
+	// (goFileIsUpToDate looks at it under -lazy; the model has no directory mtimes)
+	defer func() {
+		for i := len(tc.Ents) - 1; i >= 0; i-- {
+			if e := tc.Ents[i]; e.Dir && e.Mtime != 0 {
+				t := time.Unix(0, e.Mtime)
+				os.Chtimes(filepath.Join(root, filepath.FromSlash(e.Path)), t, t)
+			}
+		}
+	}()
 	for _, e := range tc.Ents {
 		p := filepath.Join(root, filepath.FromSlash(e.Path))
 		if e.Dir {
@@ -708,6 +770,12 @@ func explain(keep bool, before, after snap, exit int) string {
 		if strings.HasSuffix(k, ".templ") {
 			g := strings.TrimSuffix(k, ".templ") + "_templ.go"
 			code, ok := orc[k]
+			if before[g].Dir {
+				if exit == 0 {
+					return fmt.Sprintf(" [%s: output path %s is a directory, yet the command succeeded]", k, g)
+				}
+				continue
+			}
 			if ok && after[g].Content != code {
 				return fmt.Sprintf(" [%s: sibling %s is not the generation of that file alone]", k, g)
 			}
@@ -772,6 +840,9 @@ func shrink(c *core.Ctx, scratch string, bins [2]string, tc tcase, isProp bool, 
 	for round := 0; round < 12; round++ {
 		var cands []tcase
 		for i := range tc.Ents {
+			if !tc.Ents[i].Dir && strings.HasSuffix(filepath.Dir(tc.Ents[i].Path), "_templ.go") {
+				continue // a blocking directory stays non-empty (wf_tree); it goes together with its directory
+			}
 			pre := tc.Ents[i].Path + "/"
 			var l []ent
 			for j, e := range tc.Ents {
@@ -892,6 +963,14 @@ func Run(c *core.Ctx) {
 		ws := []int{1, 16, 2 + c.Rng.Intn(14), 1 + c.Rng.Intn(16)}
 		for f := 0; f < 4; f++ {
 			cases = append(cases, tcase{Fam: "random", Root: root, Ents: ents, Keep: f&1 == 1, Lazy: f&2 == 2, W: ws[(f+i)%4], W2: 1 + c.Rng.Intn(16), Race: !c.Quick() && (i%4 == 0)})
+		}
+	}
+	// write failures early in walk order, many files still pending, w = 1 and w > 1
+	nBlocked := c.N(6, 120)
+	for i := 0; i < nBlocked; i++ {
+		ents := blockedEarlyTree(c.Rng, base)
+		for f := 0; f < 4; f++ {
+			cases = append(cases, tcase{Fam: "blocked-output-early", Root: "proj", Ents: ents, Keep: f&1 == 1, Lazy: f&2 == 2, W: []int{1, 16, 4, 2}[(f+i)%4], W2: 1 + c.Rng.Intn(16), Race: !c.Quick() && (i%4 == 0)})
 		}
 	}
 	// two-step histories: run, edit templates (shorter / longer / broken / deleted), run again
@@ -1051,6 +1130,12 @@ func hist(c *core.Ctx, tc tcase, v verdict) {
 	if orphan {
 		c.Hist("has orphan _templ.go")
 	}
+	for _, e := range tc.Ents {
+		if e.Dir && strings.HasSuffix(e.Path, "_templ.go") {
+			c.Hist("has an output path blocked by a directory (write failure)")
+			break
+		}
+	}
 	for st, n := range v.stages {
 		if n > 0 {
 			c.Hist("has template: " + st)
@@ -1186,7 +1271,8 @@ func exhaustiveTrees(base int64, all bool) []fixed {
 		for si, src := range srcs {
 			// 0 absent; then older/same age/newer of: 1-3 short garbage; 4-6 up to date; 7-9 much longer garbage;
 			// 10-12 previous generation of a longer template; 13-15 previous generation of a shorter template
-			for sib := 0; sib < 16; sib++ {
+			// 16 a non-empty directory at the output path
+			for sib := 0; sib < 17; sib++ {
 				if sib >= 4 && sib <= 6 && si != 1 {
 					continue
 				}
@@ -1196,7 +1282,9 @@ func exhaustiveTrees(base int64, all bool) []fixed {
 					if si > 0 {
 						ents = append(ents, ent{Path: tp, Content: src, Mtime: t(100)})
 					}
-					if sib > 0 {
+					if sib == 16 {
+						ents = append(ents, blockEnts(join(loc, "a_templ.go"), base)...)
+					} else if sib > 0 {
 						content := siblingContent([]int{1, 0, 2, 3, 4}[(sib-1)/3], tp, src, "x")
 						ents = append(ents, ent{Path: join(loc, "a_templ.go"), Content: content, Mtime: t(100 + ((sib-1)%3-1)*50)})
 					}
